@@ -324,6 +324,22 @@ pub fn gen_random(seed: u64, idx: u64, tier: Tier) -> Plan {
                 }
                 e.plan.expect = Expect::FrameworkErr { lo: 400, hi: 400, allow: vec![] };
             }
+            if r.chance(1, 6) {
+                // a client (or a proxy in front) that sends an x-request-id of
+                // its own, drawn from a handful of values so that requests
+                // share one: the ids the server hands out stay unique
+                let v = *r.pick(&[
+                    "6ba7b810-9dad-11d1-80b4-00c04fd430c8",
+                    "6ba7b810-9dad-11d1-80b4-00c04fd430c8",
+                    "00000000-0000-0000-0000-000000000000",
+                    "F47AC10B-58CC-4372-A567-0E02B2C3D479",
+                    "req-1",
+                    "",
+                ]);
+                if let Some(at) = e.bytes.windows(2).position(|w| w == b"\r\n") {
+                    e.bytes.splice(at..at, format!("\r\nx-request-id: {v}").into_bytes());
+                }
+            }
             if r.chance(1, 10) {
                 // a large but legitimate request head (a fat cookie, a bearer
                 // token): still a well-formed request, answered like any other
